@@ -378,7 +378,38 @@ def _desc_b(grid, k):
     return {'cell': (G.plain, G.marks, G.one_dec, G.disp_note, G.rest)[grid](idx).source()}
 
 
+# ------------------------------------------------------------------ C03.g long scores
+LONG = ((300, 0), (1200, 600), (4000, 37))
+
+
+def ob_g(k: int) -> bool:
+    n = ctx.pick(2, 3)
+    assume(0 <= k < n)
+    return _g_body(choose(k, n))
+
+
+@native
+def _g_body(k):
+    from sv.ref import longdoc
+    D = longdoc.long_doc(LONG[k][0], True, LONG[k][1])
+    doc, errs = kp.loads(D.text())
+    check(not errs, f'import errors on a score of {LONG[k][0]} data rows: {[str(e) for e in errs][:3]}')
+    for enc, e in (('kern', kp.Encoding.normalizedKern), ('ekern', kp.Encoding.eKern)):
+        got = cells.parse_grid(kp.dumps(doc, spine_types=['**kern', '**text'], encoding=e))
+        exp = D.expected(enc)
+        if got != exp:
+            bad = next((i for i, (g, x) in enumerate(zip(got, exp)) if g != x), min(len(got), len(exp)))
+            check(False, f'score of {LONG[k][0]} data rows, {enc}: {len(got)} exported lines vs {len(exp)} expected; first difference at line {bad}: '
+                         f'{got[bad] if bad < len(got) else None} vs {exp[bad] if bad < len(exp) else None}')
+    return True
+
+
 OBLIGATIONS = [
+    Ob(id='C03.g', fn=ob_g, title='grid and cell content of long scores (hundreds to thousands of lines) against the cell model',
+       shard_of=lambda k: k, shards={'quick': 2, 'thorough': 3}, budget_s={'quick': 120, 'thorough': 600}, native_body=True,
+       witnesses=[{'k': 0}], min_confirmed=2, enumerated='score length',
+       bounds={'quick': 'kern + text scores of 300 and 1200 data rows with barlines, rests, dotted and decorated notes, field and global comments, one split + join',
+               'thorough': '+ 4000 data rows'}),
     Ob(id='C03.f', fn=ob_f, title='a cell\'s export does not depend on the cell parsed before it (durationless notes, bare rests, chords, barlines)',
        shard_of=lambda i, j, arr: i, shards={'quick': 4, 'thorough': 4}, budget_s={'quick': 120, 'thorough': 600},
        witnesses=[{'i': 0, 'j': 1, 'arr': 0}], min_confirmed=200, enumerated='ordered pair from a 14-cell pool x arrangement (rows of one spine, neighbouring spines, diagonal)',
